@@ -177,12 +177,28 @@ def InFamM (n t : Str) : Line → Prop
   | .sample _ plain => ∀ s, plain = .ok s → (allowedNames n t).contains s.name = true
   | _ => False
 
+/-- in the checked-out source the "More than one UNIT" test is `unit is not None` (`unitDupByNone`): every metadata
+field that has been set, even to the empty string, makes a second line of its kind fail -/
+theorem applyMeta_eq (h : Hdr) (kind cand rest : Str) : applyMeta h kind cand rest =
+    (if kind == kwHelp then
+      if h.doc.isSome then .error .valueError else .ok { h with doc := some (unescapeHelp rest) }
+    else if kind == kwType then
+      if h.typ.isSome then .error .valueError
+      else if rest == untypedName then .error .valueError
+      else .ok { h with typ := some rest, allowed := allowedNames cand rest }
+    else if kind == kwUnit then
+      if h.unit.isSome then .error .valueError else .ok { h with unit := some rest }
+    else .error .valueError) := by
+  have hf : unitDupByNone = true := by decide
+  unfold applyMeta
+  cases hu : h.unit <;> simp [hf]
+
 theorem kw_distinct : (kwType == kwHelp) = false ∧ (kwUnit == kwHelp) = false ∧ (kwUnit == kwType) = false := by decide
 
 theorem applyMeta_keeps (h h' : Hdr) (n t kind rest : Str) (hh : HdrIs n t h) (hm : applyMeta h kind n rest = .ok h') :
     HdrIs n t h' := by
   obtain ⟨h1, h2, h3⟩ := hh
-  unfold applyMeta at hm
+  rw [applyMeta_eq] at hm
   by_cases c1 : (kind == kwHelp) = true
   · rw [if_pos c1] at hm
     by_cases c2 : h.doc.isSome = true
@@ -203,7 +219,7 @@ theorem applyMeta_keeps (h h' : Hdr) (n t kind rest : Str) (hh : HdrIs n t h) (h
 
 theorem applyMeta_type (h h' : Hdr) (n t : Str) (hn : h.name = some n) (hm : applyMeta h kwType n t = .ok h') :
     HdrIs n t h' := by
-  unfold applyMeta at hm
+  rw [applyMeta_eq] at hm
   have c1 : ¬ (kwType == kwHelp) = true := by decide
   rw [if_neg c1, if_pos (beq_self_eq_true _)] at hm
   by_cases c2 : h.typ.isSome = true
